@@ -109,10 +109,36 @@ class Sched:
                 m.gassumptions.append(Cmp('eq', c[self.K], n, PW))
 
 
+def discover(m, sc):
+    """first ranking run: every thread runs to completion one after the other (all operations inside the window), which
+    is a plain concrete execution for concrete harness programs; it only collects the key paths of the visible
+    operations on that schedule.  Operations met only under other schedules are added by the re-ranking iterations."""
+    keys = {t: set() for t in range(1, sc.threads + 1)}
+    pk = m.path_kill; m.path_kill = False
+    for t in range(1, sc.threads + 1):
+        m.cur = m.threads[t]; m.cur.reset_pass(); m.pass_no = t
+        ks = keys[t]
+
+        def win(key, ks=ks):
+            ks.add(key); return True
+        m.win = win; m.before = lambda key: False; m.upto = lambda key: True; m.pass_written = set()
+        m.run_entry('vp_thread%d' % t)
+        m.thread_exit()
+    m.win = None; m.before = None; m.upto = None; m.path_kill = pk
+    m.cur = m.threads[0]
+    return keys
+
+
 def run_threads(m, sc, log=None):
     T = sc.threads; K = sc.K
     sch = Sched(m, T, K, sc.stop, getattr(m, 'posmap', None))
     m.sched = sch
+    if m.pruner is not None:
+        # schedule shape, known up front: switch points are ordered
+        for t in range(1, T + 1):
+            for r in range(1, K + 1):
+                c = Cmp('ule', sch.c[t][r - 1], sch.c[t][r], PW)
+                if c is not True: m.pruner.s.add(__import__('xsym.z3b', fromlist=['conv']).conv(c, 0))
     cap0 = m.hard_loop_cap; m.hard_loop_cap = getattr(sc, 'mt_loop_cap', 200)
     m.do_restrict = True
     scap0 = m.sym_loop_cap; m.sym_loop_cap = getattr(sc, 'mt_sym_loop_cap', 24)
@@ -128,10 +154,17 @@ def run_threads(m, sc, log=None):
             m.before = sch.before(t, r)
             if m.race is not None: m.race.reset_pass(t)
             m.upto = sch.upto(t, r)
+            m.win_hi = sch.c[t][r] if m.path_kill else None
+            m.pass_written = set()
             m.run_entry('vp_thread%d' % t)
             m.thread_exit()
             if log: log('    pass r%d t%d: %d terms, %d obligations, %.1fs' % (r, t, term.nterms(), len(m.obligations), time.time() - t0))
-    m.win = None; m.before = None; m.upto = None; m.do_restrict = False
+            if sch.posmap is not None and sch.missing and not getattr(m, 'allow_missing', False):
+                # operations without a rank make every later window test symbolic: re-rank right away
+                m.win = None; m.before = None; m.upto = None; m.do_restrict = False; m.win_hi = None
+                m.hard_loop_cap = cap0; m.sym_loop_cap = scap0
+                raise MissingKey(sch)
+    m.win = None; m.before = None; m.upto = None; m.do_restrict = False; m.win_hi = None
     m.hard_loop_cap = cap0; m.sym_loop_cap = scap0
     m.cur = m.threads[0]
     m.pass_no = K * T + 1
